@@ -387,7 +387,7 @@ class ComparePart:
         for k in ("bed", "multi"):
             if k in r1 and judged and sorted(r1[k]) != sorted(r2[k]):
                 ctx.violation("compare:relabel:" + k, "%s output changes under relabelling: %r -> %r" % (k, r1[k], r2[k]))
-        if "longest" in r1 and len(case["files"]) == 2:
+        if "longest" in r1 and len(case["files"]) == 2 and judged:
             # the agreement vector itself is ambiguous when both correspondences are equally good; its positions and
             # the number of disagreements are not
             k1 = [(l[3], l[4]) for l in r1["longest"]], sorted((l[3], l[5]) for l in r1["longest"])
